@@ -678,6 +678,18 @@ proof fn lemma_lspl_prefix(a: Seq<u8>, b: Seq<u8>)
     }
 }
 
+/// every stored entry takes at least its tag byte: offsets strictly increase
+proof fn lemma_body_strict(items: Seq<InternalValue>, i: int, j: int, ri: int)
+    requires 0 <= i < j <= items.len()
+    ensures body(items, i, ri).len() < body(items, j, ri).len()
+    decreases j - i
+{
+    assert(code(items, j - 1, ri).len() >= 1) by {
+        let e = items[j - 1];
+        if (j - 1) % ri == 0 { assert(full_bytes(e).len() >= 1); } else { let sh = lspl(ukey(items[base_of(j - 1, ri)]), ukey(e)); assert(trunc_bytes(e, sh).len() >= 1); }
+    }
+    if i < j - 1 { lemma_body_strict(items, i, j - 1, ri); }
+}
 struct Block { data: Bytes }
 impl Bytes {
     /// `unsafe { data.get_unchecked(off..) }` wrapped in a Cursor: the precondition is the safety condition of the unchecked access
@@ -733,9 +745,13 @@ spec fn item_is(it: DataBlockParsedItem, e: InternalValue, d: Seq<u8>) -> bool {
 impl<'a> Decoder<'a> {
     spec fn d(&self) -> Seq<u8> { self.block.data.view() }
     /// the front scanner stands before entry i and nothing has been taken from the back
+    /// the back scanner limits the front scan at entry b (b == n while the back scanner has not been used)
+    spec fn hi_lim(&self, items: Seq<InternalValue>, b: int) -> bool {
+        (self.hi_scanner.base_key_offset is Some ==> self.hi_scanner.offset == body(items, b, self.restart_interval as int).len())
+        && (self.hi_scanner.base_key_offset is None ==> b == items.len())
+    }
     spec fn at(&self, items: Seq<InternalValue>, i: int) -> bool {
         let ri = self.restart_interval as int;
-        &&& self.hi_scanner.base_key_offset is None
         &&& self.lo_scanner.offset == body(items, i, ri).len()
         &&& self.lo_scanner.remaining_in_interval == (if i % ri == 0 { 0 } else { ri - i % ri })
         &&& i % ri != 0 ==> self.lo_scanner.base_key_offset is Some && ({
@@ -837,15 +853,16 @@ impl<'a> Decoder<'a> {
 //@ SUBST `Self :: Item` ==> `DataBlockParsedItem`
 //@ SUBST `Cursor :: new ( unsafe { self . block . data . get_unchecked ( self . lo_scanner . offset .. ) } )` ==> `self.block.data.cursor_from(self.lo_scanner.offset)`
 //@ SUBST `let item = Self :: parse_current_item ( $1 ) . inspect ( | item | { $2 } ) ;` ==> `let item = match Self::parse_current_item($1 Ghost(oe), Ghost(shared), Ghost(tail)) { Some(item) => { { $2 } Some(item) } None => None };`
-    fn next(&mut self/*+*/, Ghost(items): Ghost<Seq<InternalValue>>, Ghost(i): Ghost<int>, Ghost(rest): Ghost<Seq<u8>>/*-*/) -> /*+*/(r:/*-*/ Option<DataBlockParsedItem>/*+*/)
-        requires block_is(old(self).d(), items, old(self).restart_interval as int, rest), 0 <= i <= items.len(), old(self).at(items, i), old(self).d().len() <= usize::MAX / 4
+    fn next(&mut self/*+*/, Ghost(items): Ghost<Seq<InternalValue>>, Ghost(i): Ghost<int>, Ghost(rest): Ghost<Seq<u8>>, Ghost(b): Ghost<int>/*-*/) -> /*+*/(r:/*-*/ Option<DataBlockParsedItem>/*+*/)
+        requires block_is(old(self).d(), items, old(self).restart_interval as int, rest), 0 <= i <= b <= items.len(), old(self).at(items, i), old(self).hi_lim(items, b), old(self).d().len() <= usize::MAX / 4
         ensures final(self).block == old(self).block, final(self).restart_interval == old(self).restart_interval, final(self).hi_scanner == old(self).hi_scanner,
-            // the trailer marker ends the scan
-            i == items.len() ==> r is None,
+            // the trailer marker, or the position the back scanner has reached, ends the scan
+            i == b ==> r is None,
             // otherwise exactly entry i is yielded (type, seqno, full key = shared prefix of the base key ++ rest, value) and the scanner stands before entry i + 1
-            i < items.len() ==> r is Some && item_is(r->Some_0, items[i], old(self).d()) && final(self).at(items, i + 1),/*-*/
+            i < b ==> r is Some && item_is(r->Some_0, items[i], old(self).d()) && final(self).at(items, i + 1),/*-*/
     {
-        /*+*/let ghost d = self.d(); let ghost ri = self.restart_interval as int;
+        /*+*/proof { if i < b { lemma_body_strict(items, i, b, self.restart_interval as int); } }
+        let ghost d = self.d(); let ghost ri = self.restart_interval as int;
         let ghost oe = if i < items.len() { Some(items[i]) } else { None };
         let ghost hk = ukey(items[base_of(i, ri)]);
         let ghost shared = if i < items.len() { lspl(hk, ukey(items[i])) } else { 0 };
@@ -938,15 +955,18 @@ impl<'a> Decoder<'a> {
 //@ SUBST `Option < Parsed >` ==> `Option<DataBlockParsedItem>`
 //@ SUBST `Cursor :: new ( unsafe { self . block . data . get_unchecked ( offset .. ) } )` ==> `self.block.data.cursor_from(offset)`
 //@ SUBST `Self :: parse_current_item ( $1 )` ==> `Self::parse_current_item($1 Ghost(oe), Ghost(shared), Ghost(tail))`
-    fn consume_stack_top(&mut self/*+*/, Ghost(items): Ghost<Seq<InternalValue>>, Ghost(rest): Ghost<Seq<u8>>, Ghost(p): Ghost<int>, Ghost(m): Ghost<int>/*-*/) -> /*+*/(r:/*-*/ Option<DataBlockParsedItem>/*+*/)
-        requires block_is(old(self).d(), items, old(self).restart_interval as int, rest), old(self).hi_scanner.stack@.len() == m, m > 0 ==> old(self).hi_ok(items, p, m), old(self).lo_scanner.offset == 0, old(self).d().len() <= usize::MAX / 4
+    fn consume_stack_top(&mut self/*+*/, Ghost(items): Ghost<Seq<InternalValue>>, Ghost(rest): Ghost<Seq<u8>>, Ghost(p): Ghost<int>, Ghost(m): Ghost<int>, Ghost(fr): Ghost<int>/*-*/) -> /*+*/(r:/*-*/ Option<DataBlockParsedItem>/*+*/)
+        requires block_is(old(self).d(), items, old(self).restart_interval as int, rest), old(self).hi_scanner.stack@.len() == m, m > 0 ==> old(self).hi_ok(items, p, m),
+            0 <= fr <= items.len(), old(self).lo_scanner.offset == body(items, fr, old(self).restart_interval as int).len(), old(self).d().len() <= usize::MAX / 4
         ensures final(self).block == old(self).block, final(self).restart_interval == old(self).restart_interval, final(self).lo_scanner == old(self).lo_scanner,
             // nothing on the stack: nothing happens
             m == 0 ==> r is None && final(self).hi_scanner.ptr_idx == old(self).hi_scanner.ptr_idx && final(self).hi_scanner.stack@ == old(self).hi_scanner.stack@
                 && final(self).hi_scanner.base_key_offset == old(self).hi_scanner.base_key_offset && final(self).hi_scanner.offset == old(self).hi_scanner.offset,
-            // otherwise exactly the last stacked entry of the interval is yielded and leaves the stack
-            m > 0 ==> r is Some && item_is(r->Some_0, items[p * old(self).restart_interval + m - 1], old(self).d()) && final(self).hi_ok(items, p, m - 1)
-                && final(self).hi_scanner.base_key_offset == old(self).hi_scanner.base_key_offset,/*-*/
+            // otherwise the last stacked entry of the interval leaves the stack, and is yielded unless the front scanner has already passed it
+            m > 0 ==> final(self).hi_ok(items, p, m - 1) && final(self).hi_scanner.base_key_offset == old(self).hi_scanner.base_key_offset
+                && (p * old(self).restart_interval + m - 1 >= fr ==> r is Some && item_is(r->Some_0, items[p * old(self).restart_interval + m - 1], old(self).d())
+                        && final(self).hi_scanner.offset == body(items, p * old(self).restart_interval + m - 1, old(self).restart_interval as int).len())
+                && (p * old(self).restart_interval + m - 1 < fr ==> r is None),/*-*/
     {
         /*+*/let ghost d = self.d(); let ghost ri = self.restart_interval as int; let ghost i = p * ri + m - 1;
         let ghost hk = ukey(items[p * ri]);
@@ -960,6 +980,10 @@ impl<'a> Decoder<'a> {
                 lemma_lspl_prefix(hk, ukey(items[i]));
                 let o = body(items, i, ri).len() as int;
                 assert(self.hi_scanner.stack@[m - 1] == o);
+                if i < fr { lemma_body_strict(items, i, fr, ri); }
+                if fr < i { lemma_body_strict(items, fr, i, ri); }
+                if fr > 0 { lemma_body_strict(items, 0, fr, ri); }
+                assert(body(items, 0, ri).len() == 0);
                 assert(d.skip(o).skip(0) =~= d.skip(o));
             }
         }/*-*/
@@ -1012,7 +1036,8 @@ impl<'a> Decoder<'a> {
             old(self).hi_scanner.ptr_idx < h, old(self).hi_scanner.stack@.len() == 0, old(self).d().len() <= usize::MAX / 4,
         ensures final(self).block == old(self).block, final(self).restart_interval == old(self).restart_interval, final(self).lo_scanner == old(self).lo_scanner,
             // the whole restart interval is on the stack
-            final(self).hi_ok(items, old(self).hi_scanner.ptr_idx as int, isize_(items.len() as int, old(self).restart_interval as int, old(self).hi_scanner.ptr_idx as int)/*-*/)/*+*/,/*-*/
+            final(self).hi_ok(items, old(self).hi_scanner.ptr_idx as int, isize_(items.len() as int, old(self).restart_interval as int, old(self).hi_scanner.ptr_idx as int)),
+            final(self).hi_scanner.offset == body(items, old(self).hi_scanner.ptr_idx * old(self).restart_interval + isize_(items.len() as int, old(self).restart_interval as int, old(self).hi_scanner.ptr_idx as int), old(self).restart_interval as int).len(/*-*/)/*+*/,/*-*/
     {
         /*+*/let ghost d = self.d(); let ghost ri = self.restart_interval as int; let ghost p = self.hi_scanner.ptr_idx as int; let ghost n = items.len() as int;
         let ghost hk = ukey(items[p * ri]);
@@ -1045,7 +1070,7 @@ impl<'a> Decoder<'a> {
                 self.hi_scanner.offset == body(items, p * ri + i__, ri).len(),
             invariant self.block == old(self).block, self.restart_interval == old(self).restart_interval, self.lo_scanner == old(self).lo_scanner,
                 d == self.d(), ri == self.restart_interval as int, ri >= 1, n == items.len(), p >= 0, p * ri < n, block_is(d, items, ri, rest), d.len() <= usize::MAX / 4, hk == ukey(items[p * ri]),
-            ensures self.hi_ok(items, p, isize_(n, ri, p)),
+            ensures self.hi_ok(items, p, isize_(n, ri, p)), self.hi_scanner.offset == body(items, p * ri + isize_(n, ri, p), ri).len(),
             decreases ri - i__/*-*/
         { if i__ >= self.restart_interval { /*+*/proof { assert((p + 1) * ri == p * ri + ri) by (nonlinear_arith); }/*-*/ break; }
             /*+*/let ghost c = i__ as int;/*-*/
@@ -1083,7 +1108,9 @@ impl<'a> Decoder<'a> {
     /// b entries have not yet been yielded from the back: the next one is entry b - 1
     spec fn back_at(&self, items: Seq<InternalValue>, h: int, b: int) -> bool {
         let ri = self.restart_interval as int; let m = self.hi_scanner.stack@.len() as int; let n = items.len() as int;
-        if m > 0 { exists|p: int| #[trigger] self.hi_ok(items, p, m) && 0 <= p < h && b == p * ri + m }
+        &&& (self.hi_scanner.base_key_offset is Some ==> self.hi_scanner.offset == body(items, b, ri).len())
+        &&& (self.hi_scanner.base_key_offset is None ==> self.hi_scanner.ptr_idx == h && m == 0)
+        &&& if m > 0 { exists|p: int| #[trigger] self.hi_ok(items, p, m) && 0 <= p < h && b == p * ri + m }
         else if self.hi_scanner.ptr_idx == usize::MAX { b == 0 }
         // nothing taken yet (Decoder::new points behind the last interval), or interval ptr_idx fully consumed
         else if self.hi_scanner.ptr_idx == h { b == n }
@@ -1092,22 +1119,24 @@ impl<'a> Decoder<'a> {
 
 //@ FROM src/table/block/decoder.rs :: impl < Item : Decodable < Parsed > , Parsed : ParsedItem < Item > > DoubleEndedIterator for Decoder < '_ , Item , Parsed > :: fn next_back :: OBL C12.26, C03.17
 //@ SUBST `Self :: Item` ==> `DataBlockParsedItem`
-//@ SUBST `self . consume_stack_top ( )` ==> `self.consume_stack_top(Ghost(items), Ghost(rest), Ghost(gp), Ghost(gm))`
+//@ SUBST `self . consume_stack_top ( )` ==> `self.consume_stack_top(Ghost(items), Ghost(rest), Ghost(gp), Ghost(gm), Ghost(fr))`
 //@ SUBST `self . fill_stack ( )` ==> `self.fill_stack(Ghost(items), Ghost(rest), Ghost(h))`
-    fn next_back(&mut self/*+*/, Ghost(items): Ghost<Seq<InternalValue>>, Ghost(rest): Ghost<Seq<u8>>, Ghost(h): Ghost<int>, Ghost(b): Ghost<int>/*-*/) -> /*+*/(r:/*-*/ Option<DataBlockParsedItem>/*+*/)
+    fn next_back(&mut self/*+*/, Ghost(items): Ghost<Seq<InternalValue>>, Ghost(rest): Ghost<Seq<u8>>, Ghost(h): Ghost<int>, Ghost(b): Ghost<int>, Ghost(fr): Ghost<int>/*-*/) -> /*+*/(r:/*-*/ Option<DataBlockParsedItem>/*+*/)
         requires block_is(old(self).d(), items, old(self).restart_interval as int, rest), heads_cover(items.len() as int, old(self).restart_interval as int, h), h < usize::MAX,
-            old(self).back_at(items, h, b), old(self).lo_scanner.offset == 0, old(self).d().len() <= usize::MAX / 4,
+            old(self).back_at(items, h, b), 0 <= fr <= b <= items.len(), old(self).lo_scanner.offset == body(items, fr, old(self).restart_interval as int).len(), old(self).d().len() <= usize::MAX / 4,
+            // the call made when the two scanners have just crossed inside a stacked interval (nothing remains but stale offsets are stacked) is not specified
+            b > fr || old(self).hi_scanner.stack@.len() == 0,
         ensures final(self).block == old(self).block, final(self).restart_interval == old(self).restart_interval, final(self).lo_scanner == old(self).lo_scanner,
-            // everything has been yielded
-            b == 0 ==> r is None,
-            // otherwise exactly entry b - 1 is yielded and b - 1 entries remain
-            b > 0 ==> r is Some && item_is(r->Some_0, items[b - 1], old(self).d()) && final(self).back_at(items, h, b - 1),/*-*/
+            // the entries [fr, b) remain; when they are used up the scan ends
+            b == fr ==> r is None,
+            // otherwise exactly entry b - 1 is yielded and [fr, b - 1) remain
+            b > fr ==> r is Some && item_is(r->Some_0, items[b - 1], old(self).d()) && final(self).back_at(items, h, b - 1),/*-*/
     {
         /*+*/let ghost ri = self.restart_interval as int; let ghost n = items.len() as int;
         let ghost mut gm = self.hi_scanner.stack@.len() as int;
         let ghost mut gp: int = if gm > 0 { choose|p: int| #[trigger] self.hi_ok(items, p, gm) && 0 <= p < h && b == p * ri + gm } else { 0 };
         proof { if gm > 0 { lemma_interval(gp, gm - 1, ri); } }/*-*/
-        if let Some(top) = self.consume_stack_top(Ghost(items), Ghost(rest), Ghost(gp), Ghost(gm)) {
+        if let Some(top) = self.consume_stack_top(Ghost(items), Ghost(rest), Ghost(gp), Ghost(gm), Ghost(fr)) {
             /*+*/proof {
                 // the interval still has entries on the stack, or is now fully consumed
                 if gm - 1 > 0 { assert(self.hi_ok(items, gp, gm - 1)); }
@@ -1144,8 +1173,8 @@ impl<'a> Decoder<'a> {
             assert(gp * ri + gm == b);
         }
 
-        let r =/*-*/ self.consume_stack_top(Ghost(items), Ghost(rest), Ghost(gp), Ghost(gm))/*+*/;
-        proof { if gm - 1 > 0 { assert(self.hi_ok(items, gp, gm - 1)); } assert(self.back_at(items, h, b - 1)); }
+        let r =/*-*/ self.consume_stack_top(Ghost(items), Ghost(rest), Ghost(gp), Ghost(gm), Ghost(fr))/*+*/;
+        proof { if gm - 1 > 0 { assert(self.hi_ok(items, gp, gm - 1)); } if b > fr { assert(self.back_at(items, h, b - 1)); } }
         r/*-*/
     }
 //@ END
